@@ -103,7 +103,7 @@ COND_DIRS = ["", "@skip(if: true)", "@skip(if: false)", "@include(if: false)", "
 
 
 class DocGen:
-    def __init__(self, c, schema, *, illtyped=False, maxdepth=3, maxsel=2, incremental=False, op="query", name="Q", free=()):
+    def __init__(self, c, schema, *, illtyped=False, maxdepth=3, maxsel=2, incremental=False, op="query", name="Q", free=(), lean=False):
         self.c = c
         self.schema = schema
         self.ill = illtyped
@@ -113,6 +113,7 @@ class DocGen:
         self.op = op
         self.name = name
         self.free = set(free)  # choice points that are plain product dimensions (cost 0) in this family
+        self.lean = lean  # structure only: no aliases, no @skip/@include, default arguments
         self.vars = {}  # name -> type string
         self.var_inputs = {}  # name -> valid_inputs list
         self.frags = []  # (name, typename, body)
@@ -133,6 +134,8 @@ class DocGen:
         self.var_inputs[name] = valid_inputs(typ)
 
     def cond_dirs(self, label):
+        if self.lean:
+            return ""
         d = self.c.pick(COND_DIRS, label)
         if "$sk" in d:
             self.declare("sk", self.K[0](self.schema.type_map["Boolean"]))
@@ -186,7 +189,7 @@ class DocGen:
 
     def selection(self, T, d, label):
         kinds = ["field", "inline", "spread"] if d < self.maxdepth + 1 else ["field"]
-        k = self.c.pick(kinds, label + ".kind")
+        k = self.c.pick(kinds, label + ".kind", cost=0 if "kind" in self.free else 1)
         if k == "field":
             return self.field(T, d, label)
         conds = self.conditions(T)
@@ -196,10 +199,10 @@ class DocGen:
             ct = T
         dirs = self.cond_dirs(label + ".dirs")
         if self.incremental:
-            dirs = (dirs + " " + self.c.pick(["", "@defer", '@defer(label: "%s")' % label.replace(".", "_"), "@defer(if: false)",
-                                             "@defer(if: $df)"], label + ".defer")).strip()
+            dirs = (dirs + " " + self.c.pick(["", '@defer(label: "%s")' % label.replace(".", "_"), "@defer", "@defer(if: false)",
+                                             "@defer(if: $df)"], label + ".defer", cost=0 if "incr" in self.free else 1)).strip()
             if "$df" in dirs:
-                self.declare("df", self.schema.type_map["Boolean"])
+                self.declare("df", self.K[0](self.schema.type_map["Boolean"]))
         if k == "inline":
             body = self.selset(ct, d + 1, label + ".body")
             return "... " + (f"on {cond} " if cond else "") + (dirs + " " if dirs else "") + body
@@ -220,7 +223,7 @@ class DocGen:
         NonNull, List = self.K[0], self.K[1]
         names = self.field_menu(T, d)
         fname = self.c.pick(names, label + ".field", cost=0 if ("rootfield" in self.free and label == "root.0") else 1)
-        alias = self.c.pick([None, "x", "y"] + [n for n in names[:3] if n != fname], label + ".alias")
+        alias = None if self.lean else self.c.pick([None, "x", "y"] + [n for n in names[:3] if n != fname], label + ".alias")
         out = (alias + ": " if alias else "") + fname
         fdef = getattr(T, "fields", {}).get(fname)
         if fdef is None:
@@ -247,7 +250,7 @@ class DocGen:
                 menu += invalid_literals(a.type)
                 if required:
                     menu.append(None)
-            ch = self.c.pick(menu, f"{label}.arg.{aname}")
+            ch = menu[0] if self.lean else self.c.pick(menu, f"{label}.arg.{aname}")
             if ch is None:
                 continue
             if "$" in ch:
@@ -279,8 +282,9 @@ class DocGen:
         ft = fdef.type
         base = ft.of_type if isinstance(ft, NonNull) else ft
         if self.incremental and isinstance(base, List):
-            st = self.c.pick(["", "@stream", "@stream(initialCount: 1)", '@stream(label: "%s", initialCount: 2)' % label.replace(".", "_"),
-                              "@stream(if: false)"], label + ".stream")
+            st = self.c.pick(["", '@stream(label: "%s")' % label.replace(".", "_"), "@stream(initialCount: 1)",
+                              '@stream(label: "%s", initialCount: 2)' % label.replace(".", "_"), "@stream(if: false)"], label + ".stream",
+                             cost=0 if "incr" in self.free else 1)
             dirs = (dirs + " " + st).strip()
         if dirs:
             out += " " + dirs
